@@ -172,10 +172,26 @@ func init() {
 		Stub: []string{"goroutine scheduler (rt, raw pipe hand-off)", "entropy: deterministic readers"},
 		Run:  runC18D,
 	})
+	// The same cold start as a differential instrument for C06: whatever a backend builds on first use
+	// (the vector backend generates its tables at start-up) is first used by concurrently scheduled tasks.
+	// Nothing schedule-dependent is logged; a deviation from the sequential results counts only if it is
+	// backend-specific.
+	Register(&Workload{
+		Name:     "C06D",
+		Property: "C06",
+		Phase:    "cold start: the first calls of the process are made by concurrent tasks, replayed on the vector and the portable backend",
+		Variants: []string{"instrc", "instrc-purego"},
+		Rule: "the scenario of C18 phase D (one OS process per run, no library call before 3..6 tasks x 2..4 self-contained operations are spawned), on the deep overlay (statement yields inside primitives/** and curve/*.go, dense preemption-point scheduling) of the default build and of -tags purego; only schedule-independent data is logged (the results of the same calls repeated alone after the join); oracle: equal per-index digests across the two builds, and a concurrent result or panic that deviates from the sequential one on one build only; " +
+			"non-trivial = the process was cold and at least two context switches happened; distinct = distinct event-log digests",
+		Real: []string{"package initialisation and first-use paths of ed25519, cache, ecvrf, x25519, sr25519, merlin, h2c, curve, scalar on both backends"},
+		Stub: []string{"goroutine scheduler (rt, raw pipe hand-off)", "entropy: deterministic readers"},
+		Run:  runC18D,
+	})
 }
 
 func runC18D(e *Env, r *core.Run) {
 	t := r.T
+	quiet := r.Property == "C06" // differential registration: log nothing schedule-dependent
 	cold := !dWarm
 	dWarm = true
 	if cold {
@@ -201,15 +217,20 @@ func runC18D(e *Env, r *core.Run) {
 	r.Ev("cfg tasks=%d ops=%d first=%d", ntasks, total, first) // "cold" is a property of the process, not of the tape: counters only
 	cv := cache.NewVerifier(cache.NewLRUCache(2))              // allocation only, no arithmetic
 	sim := e.Sim
-	sim.Begin(rt.Config{Draw: func(n int) int { return t.Draw(core.SS, n) }, EstYields: total * 4, MaxYields: uint64(total*2000 + 10000)})
+	sim.Begin(e.SimConfig(func(n int) int { return t.Draw(core.SS, n) }, total*4, uint64(total*2000+10000)))
 	logs := make([]*core.Log, ntasks)
 	got := make([][][]byte, ntasks)
 	for i := range logs {
 		logs[i] = r.NewLog(i)
 		got[i] = make([][]byte, len(scripts[i]))
 	}
+	panicked := false
 	sim.OnPanic = func(task int, val interface{}, stack []byte) {
 		msg := fmt.Sprint(val)
+		if quiet {
+			panicked = true
+			return
+		}
 		logs[task].Fail("panic", normPanic(msg), "task %d panicked: %s", task, msg)
 	}
 	for i := range scripts {
@@ -218,12 +239,16 @@ func runC18D(e *Env, r *core.Run) {
 			l := logs[i]
 			for j, o := range scripts[i] {
 				rt.Yield(3903)
-				l.Ev("invoke %s #%d", dOpNames[o.kind], o.i)
+				if !quiet {
+					l.Ev("invoke %s #%d", dOpNames[o.kind], o.i)
+				}
 				rt.EnterOp()
 				out := dOp(o.kind, o.i, cv)
 				rt.ExitOp()
 				got[i][j] = out
-				l.Ev("return %s #%d -> %s", dOpNames[o.kind], o.i, core.H(out))
+				if !quiet {
+					l.Ev("return %s #%d -> %s", dOpNames[o.kind], o.i, core.H(out))
+				}
 				r.Count(cD_ops)
 				r.Count(cD_kind[o.kind])
 			}
@@ -232,12 +257,32 @@ func runC18D(e *Env, r *core.Run) {
 	sim.Run()
 	r.AddSteps(sim.Yields)
 	r.Nontrivial = cold && sim.Switches >= 2
-	r.Ev("sched policy=%d yields=%d switches=%d hash=%x", sim.Policy(), sim.Yields, sim.Switches, sim.SchedHash)
+	if !quiet {
+		r.Ev("sched policy=%d yields=%d switches=%d hash=%x", sim.Policy(), sim.Yields, sim.Switches, sim.SchedHash)
+	}
 	if sim.AbortClass != "" {
 		r.Fail(sim.AbortClass, sim.AbortClass, "run aborted: %s", sim.AbortClass)
 		return
 	}
 	ref := cache.NewVerifier(cache.NewLRUCache(2))
+	if quiet {
+		// C06: log what the same calls give when repeated alone on this build (must be equal on every
+		// backend); a concurrent deviation is kept by the driver only if it is backend-specific.
+		deviates := panicked
+		for i := range scripts {
+			for j, o := range scripts[i] {
+				want := dOp(o.kind, o.i, ref)
+				r.Ev("task %d op %d %s #%d -> %s", i, j, dOpNames[o.kind], o.i, core.Hex8(want))
+				if !bytes.Equal(got[i][j], want) {
+					deviates = true
+				}
+			}
+		}
+		if deviates {
+			r.Main.FailSilently("backend-concurrency", "cold-start-deviates-from-sequential", "on this build the results (or a panic) of the process's first, concurrent calls differ from the same calls repeated alone")
+		}
+		return
+	}
 	for i := range scripts {
 		for j, o := range scripts[i] {
 			want := dOp(o.kind, o.i, ref)
